@@ -279,6 +279,14 @@ class Meter:
             ct = self.cipher_bytes(":".join(f[3:]))
             return acse.UserInformation(xdlms.GlobalCipherInitiateResponse(
                 security.SecurityControlField.from_bytes(bytes([int(f[1])])), int(f[2]), ct))
+        if k == "aare" and len(toks) == 7 and toks[6].startswith("diag"):
+            # the same AARE naming another result-source-diagnostic (the result decides, not the diagnostic)
+            _, res, mech, title, chal, ui = toks[:6]
+            return acse.ApplicationAssociationResponse(
+                result=en.AssociationResult(int(res)), result_source_diagnostics=en.AcseServiceUserDiagnostics(int(toks[6][4:])),
+                ciphered=True, authentication=None if mech == "none" else en.AuthenticationMechanism(int(mech)),
+                system_title=None if title == "none" else bytes.fromhex(title),
+                authentication_value=None if chal == "none" else bytes.fromhex(chal), user_information=ui_obj(ui)).to_bytes()
         if k == "aare" and len(toks) == 7:
             # the same AARE with its responder-acse-requirements bit string written another way (no unused bits / six unused bits
             # instead of seven): the same value in BER, the same AARE for the decoder
